@@ -314,6 +314,19 @@ fn check_history(report: &Report, rt: &Arc<tokio::runtime::Runtime>, hist: &[H],
     if fx.log_bytes() != before {
         report.violation("C02:restart_changed_log", case_json(hist, hist.len(), json!({})), "restart + read-only calls changed the log bytes");
     }
+    // a dead authority's last write was cut short: the log ends with a partial, newline-less line.
+    // Opening the store and reading never rewrites the log: every byte stays where it is.
+    {
+        use std::io::Write;
+        let mut f = std::fs::OpenOptions::new().append(true).open(fx.log_path()).expect("log");
+        f.write_all(br#"{"id":"00000000-0000-4000-8000-00000000dead","session_id":"torn","timestamp_ms":1,"seq":0,"kind":{"type":"session_sta"#).expect("torn tail");
+    }
+    let before = fx.log_bytes();
+    fx.restart();
+    let _ = read_only_set(&fx, &thread, None, false);
+    if fx.log_bytes() != before {
+        report.violation("C02:restart_changed_log:torn_tail", case_json(hist, hist.len(), json!({"log_tail": "partial line without newline"})), &format!("the log ended with a partial line; restart + read-only calls changed the log ({} -> {} bytes)", before.len(), fx.log_bytes().len()));
+    }
 }
 
 /// Engine S at system-call granularity: a frame larger than the log writer's buffer appended by the
